@@ -26,7 +26,8 @@ NOT_APPLICABLE = {}
 PROPS = {
     "C01": dict(
         pkg="c01", level="exploration",
-        tests=[T("TestC01", Q(2500), Q(12000, timeout=900, shards=16, shrinktime="60s"))],
+        tests=[T("TestC01", Q(2500), Q(12000, timeout=900, shards=16, shrinktime="60s")),
+               T("TestC01Large", Q(150, timeout=300, shrinktime="20s"), Q(1000, timeout=900, shards=6, shrinktime="60s"))],
         rule="rapid generates command histories (apply batches of 1-6 entries of PUT/DELETE/range DELETE/PUT_BATCH/DELETE_BATCH/TXN/SEQUENCE/DUMMY, "
              "sync, reopen, reads) over a small key pool biased to 0x00/0xFF bytes, prefixes, bookkeeping look-alikes and 1018-1024 byte keys; "
              "every result, read and the applied index is compared with an independent sorted-map model. A case is non-trivial iff its history contains "
